@@ -53,6 +53,8 @@ func genC13All(t *rapid.T) C13Case {
 		c.Steps = c.Steps[:24]
 	}
 	c.At, c.Hold = 0, 0
+	// (genC13 kept the exit sequence only if it never completes with the panic at ITS insertion point; here every point is used)
+	c.D.Exit = []uint16{}
 	return c
 }
 
